@@ -63,14 +63,19 @@ class Sandbox:
 
 
 def model_paths(case):
-    """(main path, files) as the model sees them: same strings as MontePy gets, temp root -> /ROOT."""
+    """(main path, files) as the model sees them: the same strings MontePy gets, with the temp root -> /ROOT.
+    A file at root-relative path r is what `join(dirname(main as given), name)` names, name = r relative to the
+    directory of the top-level file."""
     cwd = case.get("cwd", "work")
-    if case.get("abs"):
-        prefix = "/ROOT/"
-    else:
-        prefix = os.path.relpath("/ROOT", os.path.join("/ROOT", cwd))
-        prefix = "" if prefix == "." else prefix + "/"
-    return prefix + case["main"], {prefix + k: v for k, v in case["files"].items()}
+    main_abs = os.path.join("/ROOT", case["main"])
+    given = main_abs if case.get("abs") else os.path.relpath(main_abs, os.path.normpath(os.path.join("/ROOT", cwd)))
+    d = os.path.dirname(given)
+    topdir = os.path.dirname(case["main"])
+    files = {}
+    for r, text in case["files"].items():
+        name = os.path.relpath(r, topdir) if topdir else r
+        files[os.path.join(d, name) if d else name] = text
+    return given, files
 
 
 def model_case(case):
